@@ -21,6 +21,7 @@ func authzCfg(c *Ctx) ExploreConfig {
 }
 
 func runC17(c *Ctx) {
+	defer checkStoreKeyed(c, "C17.R8", storeRow{meth: "CreatePARSession", table: "PARSessions", op: "create", key: 2}, storeRow{meth: "GetPARSession", table: "PARSessions", op: "get", key: 2}, storeRow{meth: "DeletePARSession", table: "PARSessions", op: "delete", key: 2})
 	defer checkPARSessionOrder(c, "C17.R7")
 	defer checkConfigGetters(c, "C17.R6", "EnforcePushedAuthorize", "GetPushedAuthorizeContextLifespan", "GetPushedAuthorizeRequestURIPrefix")
 	c17Use(c)
